@@ -522,16 +522,18 @@ def arg_names(expr, env, ft, depth=0):
     return out
 
 
-def param_mutations(results):
-    """[(qualname, node, receiver source, param)] direct in-place mutations of caller-owned objects, plus calls that hand a
-    caller-owned object to a function that mutates that parameter"""
+def param_mutations(results, private=()):
+    """[(qualname, node, receiver source, param, via)] in-place mutations of caller-owned objects at the module's entry points: direct ones,
+    plus calls that hand a caller-owned object to a function that (transitively) mutates that parameter.  `private` names module-level helper
+    functions that are only called from inside the module: mutating their own parameter is judged at their call sites (a helper may well
+    fill a dict its caller just created)."""
     direct = {}
     for q, ft in results.items():
         for node, recv, tags in ft.sites:
             for t in tags:
                 if t.startswith('param:'):
                     direct.setdefault(q, []).append((node, recv, t.split(':', 1)[1]))
-    # which positional parameters does each function mutate (by simple name)
+    # which positional parameters does each function mutate (by simple name), transitively through helpers
     mutates = {}
     for q, lst in direct.items():
         ft = results[q]
@@ -539,11 +541,29 @@ def param_mutations(results):
         for node, recv, pname in lst:
             if pname in ft.order:
                 mutates.setdefault(short, set()).add(ft.order.index(pname))
+    changed = True
+    while changed:
+        changed = False
+        for q, ft in results.items():
+            short = q.split('.')[-1]
+            for node, callee, argtags in ft.calls:
+                for i, tg in enumerate(argtags):
+                    if i in mutates.get(callee, ()):
+                        for t in tg:
+                            if t.startswith('param:') and t.split(':', 1)[1] in ft.order:
+                                idx = ft.order.index(t.split(':', 1)[1])
+                                if idx not in mutates.setdefault(short, set()):
+                                    mutates[short].add(idx)
+                                    changed = True
     out = []
     for q, lst in direct.items():
+        if q.split('.')[0] in private:
+            continue
         for node, recv, pname in lst:
             out.append((q, node, recv, pname, None))
     for q, ft in results.items():
+        if q.split('.')[0] in private:
+            continue
         for node, callee, argtags in ft.calls:
             for i, tg in enumerate(argtags):
                 if i in mutates.get(callee, ()) and any(t.startswith('param:') for t in tg):
